@@ -107,6 +107,22 @@ def step (v : Variant) (line : String) : String :=
       | some (bps, _) => toHex (getRelativePath a bps)
       | none => "bad-op"
     | _, _ => "bad-op"
+  | "cli" :: n :: rest =>
+    match n.toNat? with
+    | some n =>
+      match hexList n rest with
+      | some (args, _) =>
+        match parseIgnoreArgs args with
+        | none => "F"
+        | some (ig, pn) =>
+          s!"S {ig.length}" ++ String.join (ig.map (fun x => " " ++ toHex x)) ++ s!" {pn.length}" ++
+            String.join (pn.map (fun x => " " ++ toHex x))
+      | none => "bad-op"
+    | none => "bad-op"
+  | ["uspec", m, u, path, cwd] =>
+    match fromHex u, fromHex path, fromHex cwd with
+    | some u, some path, some cwd => boolStr (userIgnoreSpecB (fm m) u path cwd)
+    | _, _, _ => "bad-op"
   | "ls" :: _casedir :: patharg :: nodepath :: base :: ni :: rest =>
     match fromHex patharg, fromHex base, ni.toNat? with
     | some patharg, some base, some ni =>
